@@ -488,6 +488,8 @@ def run(ctx, rep):
     limit_rules(facts, rep)
     offs_rules(ctx, facts, rep)
     seekabs_rules(facts, rep)
+    from rules.shared_lenfield import lenfield_rules
+    lenfield_rules(ctx, facts, rep)    # C02-LENFIELD: the 16-bit length fields of the central header announce exactly the bytes that follow
     from rules.shared_count import count_rule
     count_rule(facts, rep, rule="C02-COUNT", only=r"ZipWriter<W>>::write$")       # the stored CRC/size describe exactly the bytes the sink accepted
     vers_rules(ctx, facts, rep)
